@@ -3604,6 +3604,9 @@ async def _helper_rename_inbox(inbox: Mailbox, new_name: str) -> None:
         new_mbox.uids = uids
         new_mbox.sequences = sequences
         new_mbox.msg_keys = new_msg_keys
+        new_mbox.num_msgs = len(new_msg_keys)
+        new_mbox.num_recent = len(sequences["Recent"])
+        new_mbox._rebuild_index_dicts()
         new_mbox.optional_resync = False
         new_mbox.set_sequences_in_folder(sequences)
         await new_mbox.commit_to_db()
